@@ -24,4 +24,5 @@ def run(chk):
     batcher.emit_only_enqueues(chk, P, "C09")
     batcher.channel_impls(chk, P, "C09")
     batcher.nothing_under_lock(chk, P, "C09")
+    batcher.metrics_accounting(chk, P, "C09", ("emit_batcher", "emit_file", "emit_otlp"))
     return chk
